@@ -381,7 +381,7 @@ func (p *P) gConvergeFilter(rule string) {
 		r.OK(rule, "CONVERGE filter: decision table = candidate ∨ (PREPARE-justified ∧ could have been decided)", p.c.Pos(filt.Pos()), "8 rows")
 	}
 	r.Check(strings.HasSuffix(reach[0].Arg(1), "Key($0.Chain)") && reach[0].Arg(2) == "true", rule, "CONVERGE filter: possibly-decided test on the value's key with adversary slack", p.c.InstrPos(reach[0].Instr), reach[0].Arg(1)+", "+reach[0].Arg(2), "CouldReachStrongQuorumFor("+reach[0].Arg(1)+", "+reach[0].Arg(2)+")")
-	r.Check(strings.Contains(reach[0].Arg(0), "getRound($0, ($0.current.Instant.Round - 1)).committed") || strings.Contains(reach[0].Arg(0), "commitRoundState"), rule, "CONVERGE filter: possibly-decided test against the previous round's COMMIT tally", p.c.InstrPos(reach[0].Instr), reach[0].Arg(0), "tested against "+reach[0].Arg(0))
+	r.Check(strings.Contains(reach[0].Arg(0), "getRound($^0, ($^0.current.Instant.Round - 1)).committed") || strings.Contains(reach[0].Arg(0), "getRound($0, ($0.current.Instant.Round - 1)).committed"), rule, "CONVERGE filter: possibly-decided test against the previous round's COMMIT tally", p.c.InstrPos(reach[0].Instr), reach[0].Arg(0), "tested against "+reach[0].Arg(0))
 	// adoption
 	bp := callSinks(tc, "PREPARE begun", inst+"beginPrepare")
 	var adopt []Sink
@@ -398,7 +398,7 @@ func (p *P) gConvergeFilter(rule string) {
 	for _, f := range p.c.ProdFuncs() {
 		for _, cs := range callsTo(f, false, "gpbft.convergeState.FindBestTicketProposal") {
 			if cs.Arg(1) == "nil" {
-				r.Check(funcName(f) == inst+"shouldSkipToRound", rule, "unfiltered FindBestTicketProposal only in shouldSkipToRound", p.c.InstrPos(cs.Instr), funcName(f), "unfiltered best-ticket lookup in "+funcName(f))
+				r.Check(funcName(cs.Fn) == inst+"shouldSkipToRound", rule, "unfiltered FindBestTicketProposal only in shouldSkipToRound", p.c.InstrPos(cs.Instr), funcName(cs.Fn), "unfiltered best-ticket lookup in "+funcName(cs.Fn))
 			}
 		}
 	}
